@@ -260,6 +260,9 @@ class TypedNode(Node):
         ):
             raise TypeError("If child is a node or tree it must be typed.")
 
+        if before is False:
+            before = None  # append (note that `False` is also an `int`)
+
         if isinstance(child, self._tree.__class__):
             if deep is None:
                 deep = True
